@@ -505,6 +505,34 @@ func main() {
 	// ------------------------------------------------------------ kv/value.go
 	kvv := o.Load("kv/value.go")
 	{
+		// vs.sizeVarint: the width function behind ValueStruct.EncodedSize / Entry.EncodedSize must
+		// be the loop `for { n++; x >>= 7; if x == 0 { break } }; return n` that the model
+		// (`sizeVarint`) and the theorem `EncodedSize = len(encode)` are about; EncodedSize itself
+		// must be `len(vs.Value) + 1` plus `sizeVarint(vs.ExpiresAt)`.
+		v, ok := "", false
+		sv := kvv.Func("sizeVarint")
+		es := kvv.Func("ValueStruct.EncodedSize")
+		if sv != nil && es != nil {
+			loops := 0
+			ast.Inspect(sv.Body, func(x ast.Node) bool {
+				if fs, isFor := x.(*ast.ForStmt); isFor {
+					loops++
+					if fs.Init != nil || fs.Cond != nil || fs.Post != nil {
+						loops += 10
+					}
+				}
+				return true
+			})
+			if loops == 1 && len(sv.Body.List) == 2 && hasStmt(kvv, sv.Body, "n++") && hasStmt(kvv, sv.Body, "x >>= 7") &&
+				hasStmt(kvv, sv.Body, "return n") && len(ifs(sv.Body)) == 1 && eq(kvv, ifs(sv.Body)[0].Cond, "x == 0") &&
+				hasStmt(kvv, es.Body, "sz := len(vs.Value) + 1") && hasStmt(kvv, es.Body, "enc := sizeVarint(vs.ExpiresAt)") &&
+				hasStmt(kvv, es.Body, "return uint32(sz + enc)") {
+				v, ok = "loop7", true
+			}
+		}
+		o.Set("vs.sizeVarint", "kv/value.go:sizeVarint+EncodedSize", v, ok, "loop7")
+	}
+	{
 		fn := kvv.Func("ValueStruct.DecodeValue")
 		v, ok := "", false
 		if fn != nil && fn.Body != nil {
